@@ -459,6 +459,12 @@ class Array(metaclass=MetaArray):
         if info is None:
             info = cls._inspect_args(value)
         value = info.value  # can be None if value contained shape info
+        if (
+            isinstance(value, cls)
+            and not cls._has_refs
+            and value._size != info.size
+        ):  # refuse before anything is written
+            raise ValueError(f"Value {value} not compatible size")
         header = []
         coffset = offset
         if cls._size is None:
@@ -491,13 +497,10 @@ class Array(metaclass=MetaArray):
                 # not C order: store the data in memory order
                 value = value.transpose(info.order).copy()
             buffer.update_from_nplike(coffset, cls._itemtype._dtype, value)
-        elif isinstance(value, cls) and not cls._has_refs:
-            if value._size == info.size:
-                buffer.update_from_xbuffer(
-                    offset, value._buffer, value._offset, value._size
-                )
-            else:
-                raise ValueError("Value {value} not compatible size")
+        elif isinstance(value, cls) and not cls._has_refs:  # binary copy
+            buffer.update_from_xbuffer(
+                offset, value._buffer, value._offset, value._size
+            )
         elif value is None:  # no value to initialize
             if is_scalar(cls._itemtype):
                 pass  # leave uninitialized
